@@ -9,6 +9,7 @@ import (
 	"crypto/rsa"
 	"fmt"
 	"math/big"
+	"runtime"
 	"sync"
 	"sync/atomic"
 
@@ -120,7 +121,13 @@ func runC17(c *core.Ctx) {
 	setup := c.Rng("setup")
 	k1seed, k5seed := setup.Bytes(32), setup.Bytes(32)
 	rk := RSAKeys()
+	// schedule diversity: the number of OS threads running goroutines changes per repetition (16 worker processes on
+	// this machine already oversubscribe the cores, so preemption falls at arbitrary points inside the calls)
+	procs := []int{runtime.GOMAXPROCS(0), 2, 4, 8, 3}
+	defer runtime.GOMAXPROCS(procs[0])
 	for rep := 0; rep < R; rep++ {
+		runtime.GOMAXPROCS(procs[rep%len(procs)])
+		c.Class(fmt.Sprintf("gomaxprocs_%02d", procs[rep%len(procs)]))
 		for ki, kind := range kinds {
 			_ = ki
 			if !c.Next() {
